@@ -2,6 +2,9 @@ import PeptVerif.Model.Proto
 import PeptVerif.Model.Score
 import PeptVerif.Spec.Score
 import PeptVerif.Model.ScoreFrag
+import PeptVerif.Model.ScoreRnd
+import PeptVerif.Spec.ScoreRnd
+import PeptVerif.Model.ScoreFilter
 /-! driver for C17: the model of score.py and the brute-force specification, both evaluated at `Float`.
 Floats travel as the decimal value of their 64 IEEE bits. -/
 open Proto Score
@@ -78,6 +81,21 @@ def parseFragMatch? (n : Nat) (s : String) : Option FragMatch :=
             internal := intl }, 0, 0⟩
   | _ => none
 
+def parseRatList? (s : String) : Option (List Rat) :=
+  if s.isEmpty then some [] else (s.splitOn ",").mapM parseRatFrac?
+
+def showRat (q : Rat) : String := toString q.num ++ "/" ++ toString q.den
+
+/-- `label:isotope;…` with the position as identity -/
+def parseLabelled1? (e : String) : Option (List Char × Int) :=
+  match e.splitOn ":" with
+  | [l, i] => i.toInt?.map fun i => (l.toList, i)
+  | _ => none
+
+def parseLabelled? (s : String) : Option (List (Nat × List Char × Int)) :=
+  if s.isEmpty then some [] else
+    ((s.splitOn ";").mapM parseLabelled1?).map fun l => (List.range l.length).zip l
+
 def firstBad (l : List Bool) : String :=
   match l.findIdx? (· == false) with
   | none => "ok"
@@ -92,6 +110,26 @@ def step (line : String) : String :=
       | none => Err.valueError.show
       | some t => ";".intercalate ((getMatchedIndices t tol xs ys).map showWin)
     | _, _, _ => "bad-op"
+  | ["rnd53", z] =>
+    match parseRatFrac? z with
+    | some z => showRat (rnd53 z)
+    | none => "bad-op"
+  | ["gmir", tt, tol, xs, ys] =>
+    -- the same generic model at ℚ with every operation followed by `rnd53` (values travel as exact fractions)
+    match parseRatFrac? tol, parseRatList? xs, parseRatList? ys with
+    | some tol, some xs, some ys =>
+      match Tol.ofString? tt with
+      | none => Err.valueError.show
+      | some t => ";".intercalate ((getMatchedIndicesR rnd53 t tol xs ys).map showWin)
+    | _, _, _ => "bad-op"
+  | ["fmm", ents] =>
+    match parseLabelled? ents with
+    | some ms => showNats ((filterMissingMonoIsotope (fun m => m.2.1) (fun m => m.2.2) ms).map (·.1))
+    | none => "bad-op"
+  | ["fsi", ents] =>
+    match parseLabelled? ents with
+    | some ms => showNats ((filterSkippedIsotopes (fun m => m.2.1) ms).map (·.1))
+    | none => "bad-op"
   | ["ms", mode, tt, tol, xs, ys, ints] =>
     match parseF? tol, parseFList? xs, parseFList? ys, parseOptFList? ints with
     | some tol, some xs, some ys, some ints =>
